@@ -145,7 +145,7 @@ class ExprMixin:
             self.alive_check(r, self.text(node), node)
             self.oblige('in_bounds', 'r:' + self.text(node), z3.ULT(idx, r.length),
                         'read %s within %s' % (self.text(node), r.name), node)
-            return z3.Select(self.st.mem[r.id], idx)
+            return self.select(self.st.mem[r.id], idx)
         if t == 'func':
             return FuncPtr(lv[1])
         raise Unsupported('load of %s lvalue' % t)
@@ -175,7 +175,8 @@ class ExprMixin:
             if r.const:
                 g = z3.BoolVal(False)
             self.oblige('in_bounds', 'w:' + self.text(node), g, 'write %s within %s' % (self.text(node), r.name), node)
-            self.st.mem[r.id] = z3.Store(self.st.mem[r.id], idx, v)
+            si = z3.simplify(idx)
+            self.st.mem[r.id] = z3.Store(self.st.mem[r.id], si if z3.is_bv_value(si) else idx, v)
             self.st.written.add(r.id)
             return
         raise Unsupported('store to %s lvalue' % t)
